@@ -8,7 +8,7 @@
 From Coq Require Import String List ZArith Bool.
 Import ListNotations.
 From HV Require Import Base.Pos Base.Sexp Model.Addr Model.Schema Model.Ref Proofs.RefProofs Model.FuncCands Proofs.FuncCandsProofs
-                       Model.ValueTokens Model.ValueHover Model.ValueCands Proofs.ValueCandsProofs.
+                       Model.ValueTokens Model.ValueHover Model.ValueCands Proofs.ValueCandsProofs Gen.Consts.
 
 (* every declaration the completion walk offers is offered through its local or absolute address *)
 Theorem C08_offered_targets_match : forall conv self_active ref_scope ref_type prefix outer_body origin_rng fuel ts t,
